@@ -167,8 +167,8 @@ CLAIMS = {
         "FINAL values has its head dominated, i.e. every increase was propagated (run_lattice_closed) - and for programs using lattice values monotonically it "
         "is below every key-unique closed database: the least fixed point (run_lattice_least); relation rows stay sets (run_lattice_rel_rows_set). Tied by "
         "compiled generated programs over i64 / Dual<i64> / Set<i64> / Option<i64> lattices (seeded, recursive through the lattice, saturating increments) vs "
-        "the model (rows with multiplicities) and a Kleene-iteration oracle. Props/C03ND.lean: the lattice engine as a relation (any processing order; every micro-step reads the row values of any state the pass has already been through - snapshot, live, in between; complete on the rows unchanged during the pass): every such execution reaches the least fixed point (ndl_least_fixed_point), the deterministic model is one (deterministic_is_ndl); tie B has BoundedSet lattice columns too.",
-   design_ref="DESIGN.md §8 C03", note=ENGINE_NOTE + " The executable model reads lattice rows as a snapshot at rule-variant start; the real code reads live values: both are executions of the nondeterministic lattice engine of Props/C03ND.lean, which is proved to reach the least fixed point; parallel lattices: C02."),
+        "the model (rows with multiplicities) and a Kleene-iteration oracle. Props/C03ND.lean: the lattice engine as a relation (any processing order; every micro-step reads the row values of any state the pass has already been through - snapshot, live, in between; complete on the rows unchanged during the pass): every such execution reaches the least fixed point (ndl_least_fixed_point), the deterministic model is one (deterministic_is_ndl); tie B has BoundedSet lattice columns too. Props/C03Phys.lean: the generated code with lattices over its physical indices (key index, set-valued row-number indices, in-place join, re-queue into every new index) reaches the least fixed point (runPhysLat_spec, forward simulation onto the relation), tied by `eng runpl` on every second input.",
+   design_ref="DESIGN.md §8 C03, §13.4", note=ENGINE_NOTE + " The executable model reads lattice rows as a snapshot at rule-variant start; the real code reads live values: both are executions of the nondeterministic lattice engine of Props/C03ND.lean, which is proved to reach the least fixed point; parallel lattices: C02."),
  "C04": dict(
    engine="tie-B-engine",
    technique="Lean 4 proof that run() of a stratified program = least model with every agg/negation evaluated on the FINAL relation, each tuple once + compiled-program correspondence",
